@@ -170,32 +170,53 @@ def run_history(ops, out, stats, check_values=True, rng=None, n_ops=0):
         ops += [["set_mref", "u", 11], ["set_mref", "r", 12]] + S.motif(rng)
     try:
         k = 0
+        broken = False
         while True:
             if k >= len(ops):
                 if rng is None or k >= n_ops:
                     break
-                ops.append(S.gen_next(rng, live, CFG, ops, focus=focus))
+                ok, nxt = S.observe(out, lambda: S.hist_json(ops), "when choosing the next operation", S.gen_next,
+                                    rng, live, CFG, ops, focus)
+                if not ok:
+                    broken = True
+                    break
+                ops.append(nxt)
             op = ops[k]
             k += 1
             if op[0] == "evalall":
                 S.eval_everything(live)
                 results.append("ok")
                 continue
-            mech.before(live, k - 1, op)
+            ok, _ = S.observe(out, lambda: S.hist_json(ops, k - 2), "before %s" % op[0], mech.before, live, k - 1, op)
+            if not ok:
+                broken = True
+                break
             r = live.apply(op)
             results.append(r)
-            mech.after(live, k - 1, op, r)
             stats["op:" + op[0]] += 1
             if r.startswith("err"):
                 stats["rejected:" + op[0]] += 1
+            # an exception of the implementation while its state is read back is an observation (the edit
+            # left the model in a state that cannot be described), never a crash of the check
+            ok, _ = S.observe(out, lambda: S.hist_json(ops, k - 1), "after %s (%s)" % (op[0], r.split(" ")[0]),
+                              mech.after, live, k - 1, op, r)
+            if not ok:
+                broken = True
+                break
             if op[0] in ("eval", "set_value", "clear", "clear_all", "clear_at"):
                 continue
-            if check_state(live, ops, k - 1, out, stats, results):
+            ok, nt = S.observe(out, lambda: S.hist_json(ops, k - 1), "after %s (%s)" % (op[0], r.split(" ")[0]),
+                               check_state, live, ops, k - 1, out, stats, results)
+            if not ok:
+                broken = True
+                break
+            if nt:
                 nontrivial = True
             if out.failures:
                 break
         if check_values and not out.failures:
-            values_vs_rebuilt(live, ops, len(ops) - 1, out, stats)
+            S.observe(out, lambda: S.hist_json(ops), "at the end of the history",
+                      values_vs_rebuilt, live, ops, len(ops) - 1, out, stats)
         # the incremental mechanism model (Struct/Mech.lean) against what the implementation did, edit by edit
         mech.finish(out, lambda kk: S.hist_json(ops, kk), stats)
     finally:
